@@ -49,6 +49,20 @@ notes={
  'C19-E':'+ one Config object per configuration reused across a history; Parse(path, cfgA, cfgB)',
  'C20-F':'+ opaque document roots; *interface{} (also nil), typed-nil containers',
  'C19-D':'+ "modify the Config in place, then Parse the same path again" compared with an equal freshly built Config',
+ 'C02-H':'+ Parse / Retrieve with a list of 2-3 Configs (7 shapes: empty first, accessor-only first, filter-only + aggregate-only in both orders ...)',
+ 'C03-G':'+ documents with non-JSON Go values in C03 (filter-heavy paths; several values of one uncomparable type); also C20',
+ 'C03-H':'+ non-JSON document roots (typed nil pointers) in C03; also C20',
+ 'C06-H':'+ calls with no Config argument at all, paths in spellings the process has not parsed before; nothing parsed config-less before the concurrent phase; hang confirmation retried for schedule-dependent checks',
+ 'C07-G':'+ equal subtrees held as ONE Go object referenced twice in some physical copies; also C01',
+ 'C07-H':'+ a member renamed in place on a map just traversed, evaluated again and compared with a freshly built equal map; also C05',
+ 'C11-G':'+ subscripts in context in TestC11_Chained (followed by a name step; inside @ / $ filter operands); also C01',
+ 'C11-H':'+ long arrays (63 ... 2049 elements) and length-relative bounds in TestC11_Random',
+ 'C12-G':'+ the accessor-mode Config made by copying the plain Config value (derived := base; derived.SetAccessorMode())',
+ 'C14-H':'+ catalogue functions that reject zero (float64 0 and json.Number "0")',
+ 'C16-H':'+ U+007F written raw inside quotes (JSON allows it unescaped)',
+ 'C19-G':'+ the history\'s own []Config passed as configs[k:]... with functions registered on its elements between calls',
+ 'C19-H':'+ Configs derived by copying a Config value and calling a setter on the copy',
+ 'C20-G':'+ defined types over float64 / string / bool and json.RawMessage among the opaque values',
 }
 rows=[]
 for d in sorted(glob.glob('/verif/seeded/C*-*')):
@@ -77,7 +91,7 @@ for d in sorted(glob.glob('/verif/seeded/C*-*')):
 table='| seed | what it needs | first run | now | what was strengthened |\n|---|---|---|---|---|\n'+'\n'.join(rows)
 p='/verif/DESIGN.md'
 s=open(p).read()
-s=re.sub(r'<!-- SEEDTABLE-BEGIN -->.*?<!-- SEEDTABLE-END -->', '<!-- SEEDTABLE-BEGIN -->\n'+table+'\n<!-- SEEDTABLE-END -->', s, flags=re.S)
+s=re.sub(r'<!-- SEEDTABLE-BEGIN -->.*?<!-- SEEDTABLE-END -->', lambda m: '<!-- SEEDTABLE-BEGIN -->\n'+table+'\n<!-- SEEDTABLE-END -->', s, flags=re.S)
 open(p,'w').write(s)
 n=len(rows); miss=[r for r in rows if '| missed |' in r.split('|',5)[4:5][0] if False]
 print(n,'seeds;', sum(1 for d in glob.glob('/verif/seeded/C*-*') if json.load(open(d+'/meta.json'))['detected_by']), 'detected')
